@@ -70,6 +70,20 @@ class Ctx:
             self.fail(rule, anchor, site, text, detail_fail, extra)
         return bool(cond)
 
+    def rekeyed(self, func, rename):
+        """Run func(sub_ctx) and adopt its obligations under other rule ids: rename = {"R1": "R7a", ..} (rules another
+        property's module numbers for itself, reused here as necessary conditions of this property)."""
+        sub = self.__class__(self.prop, self.tier, repo=self.repo)
+        sub._facts = self._facts
+        sub.analysed = self.analysed
+        func(sub)
+        for o in sub.obs:
+            r = o["id"].rsplit("-", 1)[1]
+            if r in rename:
+                o["id"] = "%s-%s" % (self.prop, rename[r])
+                o["key"] = o["key"].replace("-%s@" % r, "-%s@" % rename[r], 1)
+            self.obs.append(o)
+
     def need_fn(self, facts, path, rule, text="anchor function exists"):
         fn = facts.fn(path)
         if fn is None:
